@@ -171,7 +171,7 @@ func init() {
 		NotDecided:  "that stored values are printed and encoded unchanged (C02/C04), float rounding, the languages of the name patterns beyond anchoring, and the list rules (ellipsis position, duplicates) beyond the presence of validation on every construction path are not decided.",
 		Assumptions: stdAssumptions})
 	register(&Property{ID: "C13", Title: "16,777,215-byte item limit and length header",
-		Rules:       []Rule{rLimit, rHeader, rEncTab, rShift, only(rAllocH, "parseMessageText"), rAllocSite, only(rAdvance, "sequence-of-items")},
+		Rules:       []Rule{rLimit, rHeader, rEncTab, rShift, only(rAllocH, "R6-alloc:"), rAllocSite, only(rAdvance, "sequence-of-items")},
 		Explanation: "The limit constant is 16,777,215 and each of the 7 factories refuses exactly count*width > limit for all 14 formats (R14-limit, cells at limit/width); the header routine returns an error beyond the limit and otherwise the E5 format byte, the minimal number of length bytes and the big-endian length for every type name on every cell of the size axis, including 255|256 and 65535|65536 (R26); each node requests the header of its own type for its element count (R1-encode); the decoder accumulates 1-3 length bytes without losing bits (R4). No path allocates a node outside its factory, so the limit check cannot be bypassed (R13b). Evaluated on a list of items whose length fields have 2, 1 and 3 bytes, the decoder reads each length on its own, whatever came before (R5b sequence).",
 		NotDecided:  "the header is decided on one representative per cell of the size axis, which is exact as long as the routine only compares the size (or bytes of it) with constants; a sweep of all 16.7M sizes is dynamic and not done.",
 		Assumptions: stdAssumptions})
